@@ -524,14 +524,14 @@ def r8_buffers(ctx):
     S = _load(ctx)
     for nm in ("_rainflow1", "_rainflow2"):
         d = S.py[nm]
-        al = {k: utext(v) for k, v in d["allocs"].items()}
-        ok = al.get("pts") == "np.empty(L)" and al.get("rf") == "np.empty((L-1,3))"
+        # sizes and the returned prefix are decided semantically by C05-R4; here only the element types of the offset buffers
         if nm.endswith("2"):
-            ok = ok and al.get("cycle_index") in ("np.empty(L,np.int64)",) and al.get("os") == "np.empty((L-1,2),np.int64)"
-        ctx.check(ok, f"py {nm}: work buffers have L entries, outputs L-1 rows", d["fn"], al)
-        rets = [ast.unparse(r.value).replace(" ", "") for r in d["rets"]]
-        want = ["rf[:L-fullcyclesp1]"] if nm.endswith("1") else ["(rf[:L-fullcyclesp1],os[:L-fullcyclesp1])"]
-        ctx.check(rets == want, f"py {nm}: returns the first L - fullcyclesp1 rows", d["fn"], rets)
+            for arr in ("cycle_index", "os"):
+                call = d["allocs"].get(arr)
+                dt = None
+                if call is not None:
+                    dt = utext(call.args[1]) if len(call.args) > 1 else next((utext(k.value) for k in call.keywords if k.arg == "dtype"), None)
+                ctx.check(dt in ("np.int64", "np.intp", "int"), f"py {nm}: {arr} holds integers ({dt})", d["fn"])
     for nm in ("rainflow1", "rainflow2"):
         d = S.c[nm]
         js = _collect(d["fdecl"])
@@ -546,30 +546,6 @@ def r8_buffers(ctx):
         want = 1 if nm == "rainflow1" else 2
         ok = ncalloc == want and nfree == 2 * want
         ctx.check(ok, f"C {nm}: every calloc ({ncalloc}) is freed on both the normal and the fail exit ({nfree} frees)", _cwhere())
-        # calloc(L, sizeof(...))
-        ok = all((_strip(c["inner"][1]).get("referencedDecl") or {}).get("name") == "L" for c in calls.get("calloc", []))
-        ctx.check(ok, f"C {nm}: work buffers are calloc(L, ...)", _cwhere())
-        # dims initialiser {L - fullcyclesp1, 3} evaluated while fullcyclesp1 == 1
-        dims = [n for n in js if n.get("kind") == "VarDecl" and n.get("name") == "dims"]
-        ok = False
-        if dims:
-            il = [x for x in _collect(dims[0]) if x.get("kind") == "InitListExpr"]
-            if il:
-                e0 = _strip(il[0]["inner"][0])
-                e1 = _strip(il[0]["inner"][1])
-                ok = e0.get("kind") == "BinaryOperator" and e0.get("opcode") == "-" and \
-                    (_strip(e0["inner"][0]).get("referencedDecl") or {}).get("name") == "L" and \
-                    (_strip(e0["inner"][1]).get("referencedDecl") or {}).get("name") == "fullcyclesp1" and e1.get("value") == "3"
-        ctx.check(ok, f"C {nm}: the output array is allocated with L - fullcyclesp1 rows of 3", _cwhere())
-        # final slice stop = L - fullcyclesp1 under fullcyclesp1 > 1
-        stop = calls.get("PyLong_FromSsize_t", [])
-        ok = False
-        if stop:
-            a = _strip(stop[0]["inner"][1])
-            ok = a.get("kind") == "BinaryOperator" and a.get("opcode") == "-" and \
-                (_strip(a["inner"][0]).get("referencedDecl") or {}).get("name") == "L" and \
-                (_strip(a["inner"][1]).get("referencedDecl") or {}).get("name") == "fullcyclesp1"
-        ctx.check(ok, f"C {nm}: the returned slice stops at L - fullcyclesp1", _cwhere())
         # the cursor arrays are only ever advanced by the emissions (no other write through rf/os)
         pushes = sum(1 for s in R.walk_ir(d["region"]) if s[0] == "emit" and s[1] == "rf")
         ctx.check(pushes == 3, f"C {nm}: three emission sites write through the rf cursor", _cwhere(), nontrivial=False)
@@ -579,16 +555,236 @@ def r8_buffers(ctx):
                 ctx.check(len(s[2]) == wantn, f"C {nm}: each emission advances the {s[1]} cursor by exactly one row ({wantn} stores)", _cwhere())
 
 
+# ---------------------------------------------------------------------------
+# R4: counter balance and buffer bounds by abstract interpretation (affine equalities + template inequalities)
+def _py_aff(n):
+    from .e8_karr import Aff, V
+    if isinstance(n, ast.Constant) and isinstance(n.value, int):
+        return Aff({}, n.value)
+    if isinstance(n, ast.Name):
+        return V(n.id)
+    if isinstance(n, ast.BinOp) and isinstance(n.op, (ast.Add, ast.Sub)):
+        a, b = _py_aff(n.left), _py_aff(n.right)
+        if a is None or b is None:
+            return None
+        return a + b if isinstance(n.op, ast.Add) else a - b
+    return None
+
+
+def _py_capacities(d):
+    """array name -> number of rows/entries it was allocated with (from the np.empty/np.zeros call)"""
+    caps = {}
+    for nm, call in d["allocs"].items():
+        shape = call.args[0] if call.args else None
+        if isinstance(shape, ast.Tuple):
+            shape = shape.elts[0]
+        a = _py_aff(shape) if shape is not None else None
+        if a is None:
+            raise Unsupported(f"allocation size of {nm} is not affine: {ast.unparse(call)}")
+        caps[nm] = a
+    return caps
+
+
+def _py_slices(d):
+    """[(array, stop Aff)] of the returned prefix slices"""
+    out = []
+    for r in d["rets"]:
+        vals = r.value.elts if isinstance(r.value, ast.Tuple) else [r.value]
+        for v in vals:
+            if isinstance(v, ast.Subscript) and isinstance(v.value, ast.Name) and isinstance(v.slice, ast.Slice) \
+                    and v.slice.lower is None and v.slice.step is None and v.slice.upper is not None:
+                out.append((v.value.id, _py_aff(v.slice.upper)))
+            elif isinstance(v, ast.Name):
+                out.append((v.id, None))     # whole array
+            else:
+                raise Unsupported(f"return value {ast.unparse(v)}")
+    return out
+
+
+def _c_capacities(d, low):
+    """C: work buffers from `x = calloc(n, ...)`; output rows from `dims[2] = {rows, 3}` evaluated before the count loop"""
+    from .e8_karr import aff_of_ir
+    caps = {}
+    body = low.body()["inner"]
+
+    def find(n, pred, acc):
+        if isinstance(n, dict):
+            if pred(n):
+                acc.append(n)
+            for c in n.get("inner", []) or []:
+                find(c, pred, acc)
+        return acc
+    for asg in find(d["fdecl"], lambda n: n.get("kind") == "BinaryOperator" and n.get("opcode") == "=", []):
+        rhs = _strip(asg["inner"][1])
+        if rhs.get("kind") == "CallExpr" and (_strip(rhs["inner"][0]).get("referencedDecl") or {}).get("name") == "calloc":
+            lhs = _strip(asg["inner"][0])
+            a = aff_of_ir(low.expr(rhs["inner"][1], []))
+            if a is None:
+                raise Unsupported("calloc size is not affine")
+            caps[(lhs.get("referencedDecl") or {}).get("name")] = a
+    # dims
+    top_for = [i for i, s in enumerate(body) if s.get("kind") == "ForStmt"]
+    dims_at = [i for i, s in enumerate(body) if find(s, lambda n: n.get("kind") == "VarDecl" and n.get("name") == "dims", [])]
+    if len(dims_at) != 1 or not top_for:
+        raise Unsupported("C: `dims` declaration not found at the top level of the function")
+    il = find(body[dims_at[0]], lambda n: n.get("kind") == "InitListExpr", [])
+    if not il:
+        raise Unsupported("C: `dims` has no initialiser list")
+    rows = aff_of_ir(low.expr(il[0]["inner"][0], []))
+    if rows is None:
+        raise Unsupported("C: dims[0] is not affine")
+    if dims_at[0] > top_for[0]:
+        raise Unsupported("C: the output array is sized after a top-level loop (the two-pass build is not modelled)")
+    # stores into dims[0] after the declaration would change the row count
+    for asg in find(d["fdecl"], lambda n: n.get("kind") == "BinaryOperator" and n.get("opcode") == "=", []):
+        lhs = _strip(asg["inner"][0])
+        if lhs.get("kind") == "ArraySubscriptExpr" and (_strip(lhs["inner"][0]).get("referencedDecl") or {}).get("name") == "dims":
+            ix = _strip(lhs["inner"][1])
+            if ix.get("value") != "1":
+                raise Unsupported("C: dims[0] is reassigned")
+    # evaluated with the scalar initial values (fullcyclesp1 == 1 at that point)
+    for v, val in d["inits"].items():
+        if v in rows.c:
+            rows = rows.subs(v, val)
+    caps["rf"] = rows
+    caps["os"] = rows
+    # returned slice
+    slices = []
+    stops = find(d["fdecl"], lambda n: n.get("kind") == "CallExpr" and
+                 (_strip(n["inner"][0]).get("referencedDecl") or {}).get("name") == "PyLong_FromSsize_t", [])
+    guards = find(d["fdecl"], lambda n: n.get("kind") == "IfStmt" and find(n, lambda m: m in stops, []), []) if stops else []
+    stop = aff_of_ir(low.expr(stops[0]["inner"][1], [])) if stops else None
+    guard = low.expr(guards[0]["inner"][0], []) if guards else None
+    return caps, stop, guard
+
+
+def r4_counter_balance(ctx):
+    """for every input of length L >= 2: every pts/cycle_index/peaks access is within [0, L-1], every emitted row is below the output
+    capacity, rows == L - fullcyclesp1 on exit (the returned slice is exactly the rows written), fullcyclesp1 - 1 == number of
+    count-1 rows, and the counts sum to (L-1)/2"""
+    from .e8_karr import Aff, Analysis, State, V, aff_of_ir
+    S = _load(ctx)
+    L = V("L")
+    for side, nm in (("C", "rainflow1"), ("C", "rainflow2"), ("py", "_rainflow1"), ("py", "_rainflow2")):
+        d = S.c[nm] if side == "C" else S.py[nm]
+        where = _cwhere() + f" ({nm})" if side == "C" else d["fn"]
+        tag = f"{side} {nm}"
+        if side == "C":
+            caps, stop, guard = _c_capacities(d, d["low"])
+            slices = None
+        else:
+            caps = _py_capacities(d)
+            slices = _py_slices(d)
+        arrays = dict(caps)
+        arrays["peaks"] = L          # C05-R7 checks that both entry points pass L = the length of the 1-D peaks array
+        need = {"pts", "rf"} | ({"cycle_index", "os"} if nm.endswith("2") else set())
+        if not need <= set(arrays):
+            ctx.error(f"{tag}: no allocation found for {sorted(need - set(arrays))}", where)
+            continue
+        ixvars = set()
+        for st_ in R.walk_ir(d["region"]):
+            if st_[0] == "for":
+                ixvars.add(st_[1])
+                ixvars |= R.expr_vars(st_[3])
+        def idxv(e):
+            if e[0] == "idx":
+                ixvars.update(R.expr_vars(e[2]))
+            for c in e[1:]:
+                if isinstance(c, tuple):
+                    idxv(c)
+        for st_ in R.walk_ir(d["region"]):
+            for c in st_[1:]:
+                if isinstance(c, tuple) and c and isinstance(c[0], str):
+                    idxv(c)
+                elif isinstance(c, tuple):
+                    for cc in c:
+                        if isinstance(cc, tuple):
+                            idxv(cc)
+        ixvars.discard("L")
+        an = Analysis(arrays, sorted(ixvars))
+        st0 = State()
+        used = set()
+        for s_ in R.walk_ir(d["region"]):
+            for c in s_[1:]:
+                if isinstance(c, tuple):
+                    try:
+                        used |= R.expr_vars(c)
+                    except Exception:  # noqa
+                        pass
+        for v, val in d["inits"].items():
+            if val.denominator == 1 and v in ("j", "fullcyclesp1"):
+                st0.assign(v, Aff({}, val))
+        st0.assign("rows", Aff({}, 0))
+        st0.assign("fullrows", Aff({}, 0))
+        st0.lb["L"] = 2                 # both entry points refuse L < 2 (C05-R7)
+        try:
+            ex, brk = an.block(d["region"], st0)
+        except Unsupported as e:
+            ctx.error(f"{tag}: abstract interpretation gave up: {e}", where)
+            continue
+        # (a) every access in bounds, every emission below capacity, loop ranges well formed
+        seen = set()
+        for desc, ok, strepr in an.obl:
+            if (desc, ok) in seen:
+                continue
+            seen.add((desc, ok))
+            ctx.check(ok, f"{tag}: {desc}", where, None if ok else f"not derivable from the loop invariant {strepr}")
+        # (b) emission counts are 1/2 or 1
+        for cnt, _ in an.emits:
+            ok = cnt in (("num", Fraction(1, 2)), ("num", Fraction(1)))
+            ctx.check(ok, f"{tag}: an emitted count is 0.5 or 1 ({R.fmt_expr(cnt)})", where)
+        # (c) exit relations
+        fc = V("fullcyclesp1")
+        rows, full = V("rows"), V("fullrows")
+        ok = ex.entails_eq(rows - (L - fc))
+        ctx.check(ok, f"{tag}: on exit the number of rows written is exactly L - fullcyclesp1", where, None if ok else repr(ex))
+        ok = ex.entails_eq(full - (fc - 1))
+        ctx.check(ok, f"{tag}: fullcyclesp1 - 1 is exactly the number of count-1 rows", where, None if ok else repr(ex))
+        ok = ex.entails_eq(full + rows - (L - 1))
+        ctx.check(ok, f"{tag}: 2 * sum(counts) = 2*full + half = L - 1 (every interval between successive points is counted once)", where,
+                  None if ok else repr(ex))
+        # (d) the returned prefix is the rows written
+        if side == "py":
+            want = {"rf"} | ({"os"} if nm.endswith("2") else set())
+            got = {a for a, _ in slices}
+            ctx.check(got == want, f"{tag}: returns {sorted(want)}", where, sorted(got))
+            for arr, stp in slices:
+                if stp is None:
+                    ok = ex.entails_eq(rows - arrays[arr])
+                    ctx.check(ok, f"{tag}: {arr} is returned whole and is full (rows == capacity)", where, None if ok else repr(ex))
+                else:
+                    ok = ex.entails_eq(rows - stp)
+                    ctx.check(ok, f"{tag}: the returned slice {arr}[:{stp}] is exactly the rows written", where, None if ok else repr(ex))
+        else:
+            if stop is None:
+                ok = ex.entails_eq(rows - arrays["rf"])
+                ctx.check(ok, f"{tag}: the output is returned whole and is full", where, None if ok else repr(ex))
+            else:
+                t, f = an.guard(guard, ex) if guard is not None else (ex, State(bottom=True))
+                if guard is not None and guard[0] == "cmp":
+                    a, b = aff_of_ir(guard[2]), aff_of_ir(guard[3])
+                    if a is not None and b is not None:
+                        neg = {">": b - a, ">=": b - a - 1, "<": a - b, "<=": a - b - 1}.get(guard[1])
+                        if neg is not None:
+                            f.assume_nonneg(neg)
+                ok = t.bottom or t.entails_eq(rows - stop)
+                ctx.check(ok, f"{tag}: when {R.fmt_expr(guard) if guard else 'always'}, the returned slice [:{stop}] is exactly the rows written", where,
+                          None if ok else repr(t))
+                ok = f.bottom or f.entails_eq(rows - arrays["rf"])
+                ctx.check(ok, f"{tag}: otherwise the whole output is returned and it is full (rows == {arrays['rf']})", where, None if ok else repr(f))
+
+
 RULES = [
     ("C05-R1", r1_isomorphism, 8),
     ("C05-R2", r2_erasure, 2),
     ("C05-R3", r3_astm, 4),
+    ("C05-R4", r4_counter_balance, 150),
     ("C05-R5", r5_lockstep, 20),
     ("C05-R6", r6_value_flow, 40),
     ("C05-R7", r7_selection, 10),
-    ("C05-R8", r8_buffers, 14),
+    ("C05-R8", r8_buffers, 10),
 ]
-LEVEL = "other"
+LEVEL = "translation_validation"
 TRUSTED = ["clang-14 front end (parser/preprocessor of c_rain.c, -ast-dump=json)", "CPython ast", "verifier/e7_rainir.py lowering",
            "IEEE-754 evaluation of identical expression trees by the C compiler and CPython/numba"]
 EXPLANATION = ("Static translation validation between the two rainflow implementations: both are lowered (clang JSON AST / Python ast) to one "
@@ -599,7 +795,9 @@ MANIFEST = {
             "trees (IR isomorphism), rainflow1 is rainflow2 with offsets erased, both equal the ASTM E1049-85 three-point stack automaton, every value move "
             "is mirrored by its index move and every emitted offset pair names the two points whose range is counted, data influences control only through "
             "|p-q| < |r-s| (hence negation/shift/positive scaling act 'in the obvious way'), both entry points refuse L < 2 and dispatch identically, "
-            "buffers have L / L-1 rows and the returned slice is L - fullcyclesp1. Not decided: numba's compilation, bit-level FP of the two compilers.",
+            "and (C05-R4, abstract interpretation of the shared IR with Karr's affine-equality domain plus template inequalities) for every L >= 2 every "
+            "pts/cycle_index/peaks index lies in [0, L-1], every emitted row is below the allocated capacity, on exit rows == L - fullcyclesp1 which is "
+            "exactly the returned prefix, fullcyclesp1 - 1 is the number of count-1 rows and the counts sum to (L-1)/2. Not decided: numba's compilation, bit-level FP of the two compilers.",
     "note": "Trusted: clang-14 as parser of c_rain.c with the build's include paths; CPython ast; IEEE conformance of both compilers on identical expression trees.",
-    "technique": "static translation validation: clang JSON AST and Python AST lowered to a common IR, structural isomorphism + comparison with an ASTM E1049 reference automaton",
+    "technique": "static translation validation: clang JSON AST and Python AST lowered to a common IR, structural isomorphism + comparison with an ASTM E1049 reference automaton; abstract interpretation (Karr affine equalities + template inequalities) for counter balance and buffer bounds",
 }
